@@ -436,7 +436,14 @@ def gen_real_exprs(r, n):
             b = r.choice(bases)
             w_ = b[3]
             c = r.random()
-            if c < 0.5:
+            if c < 0.2 and w_ >= 2:
+                # a slice of a slice: the offsets add up
+                a = r.randint(0, w_ - 1)
+                b1_ = r.randint(a + 1, w_)
+                iw = b1_ - a
+                a2 = r.randint(0, iw)
+                e = ("slice", ("slice", b, a, b1_), a2, r.randint(a2, iw))
+            elif c < 0.5:
                 a = r.randint(0, w_)
                 e = ("slice", b, a, r.randint(a, w_))
             elif c < 0.7 and w_:
